@@ -78,6 +78,12 @@ def stats_entries(g, L, known, grid, removal=True):
         if directed:
             _entry(es, "iet_in", u, 0, 0, lambda: g.inter_in_event_time_distribution(cn(u)), "hist", L)
             _entry(es, "iet_out", u, 0, 0, lambda: g.inter_out_event_time_distribution(cn(u)), "hist", L)
+    # beyond the listed properties (clause X17_iet_pair, reported only): the pair form
+    if not directed:
+        for u in present:
+            for v in present:
+                if u < v and g.has_interaction(cn(u), cn(v)):
+                    _entry(es, "x_iet_pair", u, v, 0, lambda: g.inter_event_time_distribution(cn(u), cn(v)), "hist", L)
     if directed:
         _entry(es, "iet_all", 0, 0, 0, lambda: g.inter_in_event_time_distribution(), "hist", L)
         _entry(es, "iet_all", 0, 0, 0, lambda: g.inter_out_event_time_distribution(), "hist", L)
